@@ -19,6 +19,43 @@ CLAIMED = {
     ),
 }
 
+CLAIMED["C04"] = dict(
+    text="Proof (Lean 4), for every machine set, every oracle (all seeds and every value a sampler can return, NaN/inf included) and every history "
+         "with arbitrary batches: returned machine ids strictly increasing and existing (so distinct, at most one per machine, none without machines), "
+         "each action is the projection (kind, bypass, replace, timer) of an action of a state of the machine it names, all timeouts/durations <= 24 h, "
+         "END is absorbing across calls. The same decidable predicates run as a monitor on the implementation's traces; correspondence on actions.",
+    ref="5 (C04)",
+    technique="Lean 4 invariant proof over primitive steps of the framework model (Step/Reach/Run engine) + differential correspondence + spec monitor on implementation traces",
+)
+
+CLAIMED["C02"] = dict(
+    text="Proof (Lean 4), for every machine set, fractions, oracle, every prior history (single events or batches) and every single-event call: a returned "
+         "SendPadding for machine m implies, with packet counts recomputed from the event history alone, budget not exhausted or both the machine's and the "
+         "framework's padding fraction below their limits (fraction over zero packets counts as below). Rests on a proved refinement: the model's accounting "
+         "fields are a pure function of the reported events. The exact-rational form of the same predicate runs as a monitor on the implementation's traces.",
+    ref="5 (C02)",
+    technique="Lean 4: gate invariant over primitive steps + accounting refinement theorem; differential correspondence; exact-rational spec monitor on implementation traces",
+)
+
+CLAIMED["C03"] = dict(
+    text="Proof (Lean 4), for every machine set, fractions, oracle, every prior history with arbitrary (also backwards) clock values and every single-event call: "
+         "a returned BlockOutgoing for machine m implies replace-while-active, or blocked time (recomputed from the BlockingBegin/End reports and timestamps alone, "
+         "ongoing block counted to now, negative spans as 0) below allowed_blocked_microsec, or the blocked share below both the machine's and the framework's fraction. "
+         "Rests on the proved accounting refinement. The same decidable predicate runs as a monitor on the implementation's traces under a virtual clock.",
+    ref="5 (C03)",
+    technique="Lean 4: gate invariant over primitive steps + accounting refinement theorem; differential correspondence under a virtual clock; spec monitor on implementation traces",
+)
+
+CLAIMED["C20"] = dict(
+    text="Proof (Lean 4) on a byte-level model of the C API whose struct layouts are regenerated from maybenot.h and lib.rs on every run: decode(encode(convert a)) = view a field for field "
+         "(kind, machine, bypass, replace, timer, seconds/nanoseconds split), the written count equals the number of framework actions and is <= num_machines (discharged from C04), nothing beyond "
+         "index count is written, event conversion is exact and injective, null pointers / bad arguments give the specified result codes; header/Rust layout consistency is a proof obligation. "
+         "The five extern \"C\" functions are driven through the rlib with canaries around the output buffer and compared byte-wise with the model and with the Rust framework.",
+    ref="7 (C20)",
+    technique="Lean 4 theorems on a header-derived C layout model + translator (maybenot.h, lib.rs) + differential correspondence on raw output bytes with canaries",
+    note="Trusted in addition: x86-64 SysV layout rules as modelled in Ffi.lean; real memory safety of the unsafe writes beyond the byte-level contract, OS RNG and Instant::now() are outside the model; machines are deterministic so the API's OS-seeded RNG cannot matter.",
+)
+
 PENDING = {}
 
 ALL = [f"C{i:02d}" for i in range(1, 21)]
